@@ -126,6 +126,7 @@ type seqHarness struct {
 	msgs  []*msgSpec
 	gates *Gates
 	tok   int
+	entered map[string]bool
 	srv   *jrpc2.Server
 	pipe  *Pipe
 	peer  *PeerEnd
@@ -139,6 +140,10 @@ func (h *seqHarness) handler() jrpc2.Handler {
 		h.tok++
 		tok := "tok" + strconv.Itoa(h.tok)
 		vs.Event("h_enter", req.Method(), req.ID(), tok)
+		if h.entered == nil {
+			h.entered = map[string]bool{}
+		}
+		h.entered[req.Method()] = true
 		if m := req.Method(); m[0] == 'g' || m[0] == 'h' {
 			h.gates.Wait(m)
 		}
